@@ -33,7 +33,9 @@ def sop(o):
 def snap(s):
     parts = "[" + "; ".join(f"({coqgen.cm(p['choices'])}, {coqgen.z(p['lw'])}, {coqgen.val(p['ret'])}, {coqgen.z(p['score'])})"
                             for p in s["parts"]) + "]"
-    return f"{{| sn_parts := {parts}; sn_est := {q(s['est'])}; sn_lml := {q(s['lml'])} |}}"
+    fv = "[" + "; ".join(coqgen.z(v) for v in s["fvals"]) + "]"
+    return (f"{{| sn_parts := {parts}; sn_est := {q(s['est'])}; sn_lml := {q(s['lml'])}; "
+            f"sn_fvals := {fv}; sn_fest := {q(s['fest'])}; sn_fest2 := {q(s['fest2'])} |}}")
 
 
 def case(c):
@@ -95,7 +97,7 @@ def run(ctx):
                          "rule": "random pipelines init(default|custom proposal) then up to 4 of extend(default|custom)/rejuvenate(mh)/resample(categorical|systematic) "
                                  "on random @gen targets with 2-4 dyadic categorical sites (masses 1/2,1/4,1/4 rotated by parent-dependent parameters), random "
                                  "observation subsets (none..all), N in {1,2,3,4,6}, run under seed; every stage snapshot (per-particle choices, weight, retval, score; "
-                                 "estimate; lml) is judged in Coq.  Every third case runs rejuvenation_smc itself (return_all_particles=True): feedback model, T in 2..4 steps of per-step "
+                                 "estimate; lml; ParticleCollection.estimate of a scalar and of a vector-valued test function against the self-normalised weighted average) is judged in Coq.  Every third case runs rejuvenation_smc itself (return_all_particles=True): feedback model, T in 2..4 steps of per-step "
                                  "observations, N in {1,2,4,6,8}, 40% with a transition proposal, 35% with mh rejuvenation (1-2 moves); each time step's snapshot is judged as "
                                  "'not resampled' (per-particle weight increment for its own previous return value, estimate unchanged, ESS >= N//2) or 'resampled' (weights 0, every "
                                  "particle extends some previous particle, exp(lml) = estimate); non-trivial = distinct pipeline with >=2 particles and >=2 ops / rejuvenation_smc case with >=2 particles",
